@@ -6,6 +6,7 @@ import (
 	"fmt"
 	"math"
 	"math/big"
+	"os"
 	"strings"
 
 	ethcmn "github.com/ethereum/go-ethereum/common"
@@ -80,10 +81,11 @@ type progRun struct {
 	known  map[ethcmn.Address]int // contracts -> number of branches (generator knowledge)
 	order  []ethcmn.Address
 	stats  map[string]int
+	ghosts *ghostTracker
 }
 
 func newProgRun(c *ProgCase) *progRun {
-	r := &progRun{ad: newAdapter(), ref: newRef(), height: 2, blockN: 1, known: map[ethcmn.Address]int{}, stats: map[string]int{}}
+	r := &progRun{ad: newAdapter(), ref: newRef(), height: 2, blockN: 1, known: map[ethcmn.Address]int{}, stats: map[string]int{}, ghosts: newGhostTracker()}
 	r.ad.seed(c.Accts)
 	r.ref.seed(c.Accts)
 	for _, a := range c.Accts {
@@ -186,6 +188,12 @@ func (r *progRun) probe(s PStep, ex *exclusions) string {
 			}
 		}
 	}
+	if ex.on(exStale) {
+		cp.Finalise(true)
+		if r.ghosts.revived(cp) {
+			return exStale
+		}
+	}
 	return ""
 }
 
@@ -278,6 +286,11 @@ func (r *progRun) execMsg(i int, s PStep) *violation {
 			r.stats["out-of-gas"]++
 		default:
 			r.stats["vm-error-other"]++
+			e := resA.Err.Error()
+			if len(e) > 28 {
+				e = e[:28]
+			}
+			r.stats["vmerr:"+s.Note[:4]+":"+e]++
 		}
 	} else {
 		r.stats["consensus-rejected"]++
@@ -320,7 +333,9 @@ func (r *progRun) execMsg(i int, s PStep) *violation {
 		// a message failing its consensus checks is not part of a block: go-ethereum drops what it did
 		r.ref.sdb.RevertToSnapshot(snap)
 	}
+	r.ghosts.beforeFinalise(r.ref.sdb, r.ref.rec.addrs, r.ref.rec.slots)
 	r.ref.sdb.Finalise(true)
+	r.ghosts.afterFinalise(r.ref.sdb)
 	if errA != nil {
 		r.ad.st.DiscardTxSession() // what the application does with a failed DeliverTx
 	} else {
@@ -541,6 +556,13 @@ func progClasses(c *ProgCase, r *progRun) (string, []string) {
 	for _, k := range []string{"ok", "reverted", "out-of-gas", "vm-error-other", "consensus-rejected"} {
 		if r.stats[k] > 0 {
 			classes = append(classes, "prog:msg-"+k)
+		}
+	}
+	if os.Getenv("VERIF_C16_DEBUG") != "" {
+		for k, n := range r.stats {
+			for i := 0; i < n; i++ {
+				classes = append(classes, "n:"+k)
+			}
 		}
 	}
 	nt := ""
